@@ -3,7 +3,8 @@ from vp.sched.stream import SchedStream
 
 TRUSTED = ["Model/Pool.v is a hand-written specification automaton over the workflow's instance graph; the instance graph, completion rule and runahead spec are computed by the harness from the generated graph AST independently of cylc. Trusted: Coq kernel+VM; the in-process driver (vp/sched/driver.py: fake process pool, method wrappers recording events); the scenario generator and its reference semantics (vp/sched/scen.py); integer cycling only; no datetime cycling."]
 ASSUMES = ["integer cycling; no manual intervention in these scenarios; jobs are simulated by the harness (no real job runs)"]
-STREAMS = [SchedStream('C01', name="sched", feat={'abs': True}, extra_oracles=['C07'])]
+_ABS_PREINITIAL = {'custom_rate': 1.0, 'customs': {}, 'disorder': 0.0, 'fail_rate': 0.0, 'fcp': 2, 'icp': 1, 'ops': [], 'opt': [['a', 'failed', True], ['a', 'succeeded', True], ['b', 'failed', True], ['b', 'started', False], ['b', 'succeeded', True]], 'queues': {}, 'runahead': 4, 'sections': [{'lines': [{'lhs': None, 'rhs': 'a'}, {'lhs': None, 'rhs': 'b'}, {'lhs': {'off': -2, 'out': 'failed', 'task': 'a'}, 'rhs': 'a'}, {'lhs': {'abs': 0, 'out': 'succeeded', 'task': 'b'}, 'rhs': 'a'}], 'rec': 'P1'}], 'seed': 1068482917, 'tasks': ['a', 'b']}   # known finding: absolute trigger + pre-initial offset
+STREAMS = [SchedStream('C01', name="sched", feat={'abs': True}, extra_oracles=['C07'], corpus=[_ABS_PREINITIAL])]
 META = {
     "level_text": 'Coq theorems over the pool automaton (Model/Pool.v), for all instance graphs and all accepted traces: a submission is accepted only for a graph instance within bounds, in the preparing state, with every prerequisite expression true over outputs actually completed earlier (induction over the trace with the invariant of Proofs/PoolProofs.v); accepted auto-shutdown leaves nothing runnable. Tie: every real scheduler run of generated workflows (outcomes and delivery orders from the seed) must be accepted by the automaton event by event, with abstract pool = real pool at each tick end. The closure-equality (completeness) half is checked per run by the oracle, not proved (partial).',
     "level_note": "Model/Pool.v is a hand-written specification automaton over the workflow's instance graph; the instance graph, completion rule and runahead spec are computed by the harness from the generated graph AST independently of cylc. Trusted: Coq kernel+VM; the in-process driver (vp/sched/driver.py: fake process pool, method wrappers recording events); the scenario generator and its reference semantics (vp/sched/scen.py); integer cycling only; no datetime cycling.",
